@@ -42,7 +42,7 @@ func spawnsWorkers(in ssa.Instruction) bool {
 	case *ssa.Go:
 		return true
 	case *ssa.Call:
-		if cal := x.Call.StaticCallee(); cal != nil && cal.Name() == "Go" && cal.Pkg != nil && strings.HasSuffix(cal.Pkg.Pkg.Path(), "errgroup") {
+		if cal := x.Call.StaticCallee(); cal != nil && fname(cal) == "Go" && cal.Pkg != nil && strings.HasSuffix(cal.Pkg.Pkg.Path(), "errgroup") {
 			return true
 		}
 	}
@@ -121,7 +121,7 @@ func ruleDoBarrier(c *Ctx, r *R) {
 		case *ssa.Go:
 			return ss(1), true
 		case *ssa.Call:
-			if cal := x.Call.StaticCallee(); cal != nil && cal.Name() == "Wait" && cal.Signature.Recv() != nil && isNamedType(cal.Signature.Recv().Type(), "sync", "WaitGroup") {
+			if cal := x.Call.StaticCallee(); cal != nil && fname(cal) == "Wait" && cal.Signature.Recv() != nil && isNamedType(cal.Signature.Recv().Type(), "sync", "WaitGroup") {
 				return ss(2), true
 			}
 		}
@@ -137,7 +137,7 @@ func ruleDoBarrier(c *Ctx, r *R) {
 	var add *ssa.Call
 	instrs(do, func(b *ssa.BasicBlock, i int, in ssa.Instruction) {
 		if call, ok := in.(*ssa.Call); ok {
-			if cal := call.Call.StaticCallee(); cal != nil && cal.Name() == "Add" && cal.Signature.Recv() != nil && isNamedType(cal.Signature.Recv().Type(), "sync", "WaitGroup") {
+			if cal := call.Call.StaticCallee(); cal != nil && fname(cal) == "Add" && cal.Signature.Recv() != nil && isNamedType(cal.Signature.Recv().Type(), "sync", "WaitGroup") {
 				add = call
 			}
 		}
@@ -160,7 +160,7 @@ func ruleDoBarrier(c *Ctx, r *R) {
 		first := false
 		for _, in := range g.Blocks[0].Instrs {
 			if d, ok := in.(*ssa.Defer); ok {
-				if cal := d.Call.StaticCallee(); cal != nil && cal.Name() == "Done" {
+				if cal := d.Call.StaticCallee(); cal != nil && fname(cal) == "Done" {
 					first = true
 				}
 				break
@@ -176,7 +176,7 @@ func ruleDoBarrier(c *Ctx, r *R) {
 	pf2 := &PF{N: 2}
 	pf2.Instr = func(fn *ssa.Function, in ssa.Instruction, q int) (StateSet, bool) {
 		if call, ok := in.(*ssa.Call); ok {
-			if cal := call.Call.StaticCallee(); cal != nil && cal.Name() == "Go" {
+			if cal := call.Call.StaticCallee(); cal != nil && fname(cal) == "Go" {
 				return ss(1), true
 			}
 		}
@@ -190,7 +190,7 @@ func ruleDoBarrier(c *Ctx, r *R) {
 		k++
 		okW := false
 		if call, ok := e.Ret.Results[0].(*ssa.Call); ok {
-			if cal := call.Call.StaticCallee(); cal != nil && cal.Name() == "Wait" {
+			if cal := call.Call.StaticCallee(); cal != nil && fname(cal) == "Wait" {
 				okW = true
 			}
 		}
@@ -233,7 +233,7 @@ func ruleDoUniqueIndex(c *Ctx, r *R) {
 				return false
 			}
 			cal := ac.Call.StaticCallee()
-			if cal == nil || cal.Name() != "AddInt32" || !isConstInt(ac.Call.Args[1], 1) {
+			if cal == nil || fname(cal) != "AddInt32" || !isConstInt(ac.Call.Args[1], 1) {
 				return false
 			}
 			chain := lf.chain
@@ -451,7 +451,7 @@ func ruleDoBounded(c *Ctx, r *R) {
 						why = "spawn bound may be parameter " + x.Name()
 					}
 				case *ssa.Call:
-					if cal := x.Call.StaticCallee(); cal != nil && cal.Name() == "GOMAXPROCS" && isConstInt(x.Call.Args[0], -1) {
+					if cal := x.Call.StaticCallee(); cal != nil && fname(cal) == "GOMAXPROCS" && isConstInt(x.Call.Args[0], -1) {
 						hasMaxprocs = true
 					} else {
 						good = false
@@ -534,7 +534,7 @@ func ruleDoErrorContract(c *Ctx, r *R) {
 	var egCtx ssa.Value
 	instrs(dc, func(b *ssa.BasicBlock, i int, in ssa.Instruction) {
 		if call, ok := in.(*ssa.Call); ok {
-			if cal := call.Call.StaticCallee(); cal != nil && cal.Name() == "WithContext" && strings.HasSuffix(cal.Pkg.Pkg.Path(), "errgroup") {
+			if cal := call.Call.StaticCallee(); cal != nil && fname(cal) == "WithContext" && strings.HasSuffix(cal.Pkg.Pkg.Path(), "errgroup") {
 				for _, ref := range *call.Referrers() {
 					if ex, ok := ref.(*ssa.Extract); ok && ex.Index == 1 {
 						egCtx = ex
@@ -673,7 +673,7 @@ func ruleDoErrorContract(c *Ctx, r *R) {
 			return
 		}
 		if call, ok := ret.Results[1].(*ssa.Call); ok {
-			if cal := staticCallee(&call.Call); cal != nil && cal.Name() == "DoContext" && isNilConst(ret.Results[0]) {
+			if cal := staticCallee(&call.Call); cal != nil && fname(cal) == "DoContext" && isNilConst(ret.Results[0]) {
 				for _, gd := range guardsOf(b) {
 					if cf, ok := gd.asCmp(); ok && cf.x == ssa.Value(call) && cf.op == token.NEQ {
 						okRet = true
@@ -742,7 +742,7 @@ func mapCallback(fn *ssa.Function) *ssa.Function {
 			return
 		}
 		cal := staticCallee(&call.Call)
-		if cal == nil || (cal.Name() != "Do" && cal.Name() != "DoContext") || len(call.Call.Args) == 0 {
+		if cal == nil || (fname(cal) != "Do" && fname(cal) != "DoContext") || len(call.Call.Args) == 0 {
 			return
 		}
 		if f, _ := funcAndReceiver(call.Call.Args[len(call.Call.Args)-1]); f != nil {
